@@ -148,6 +148,33 @@ func genC14(seed uint64, tier string, idx int) *Plan {
 			}
 		}
 	}
+	if len(opens) > 0 && g.r.chance(20) {
+		// the terminal abandons an open transfer and starts the same message again (a new packet 1 of that id): the new
+		// transfer has its own 60 s; inbound data more than 60 s after the first start and less than 60 s after the
+		// second must find it alive (re-requested, and completed by the resupply)
+		k := g.r.intn(len(opens))
+		old := opens[k]
+		id := p.Expect.Xfers[old.xi-1].ID
+		sleep(time.Duration(25000+g.r.intn(30000)) * time.Millisecond)
+		total := 2 + g.r.intn(10)
+		fr, tr := g.transferFrames(ci, id, total, 0, false)
+		missing := []int{2 + g.r.intn(total-1)}
+		tr.Missing = missing
+		p.Expect.Xfers = append(p.Expect.Xfers, tr)
+		xi := len(p.Expect.Xfers)
+		o := &open{xi: xi, missing: missing, pk: map[int]SentFrame{}}
+		for i := range fr {
+			fr[i].Xfer = xi
+			o.pk[int(fr[i].No)] = fr[i]
+			if int(fr[i].No) != missing[0] {
+				send(fr[i])
+			}
+		}
+		opens[k] = o
+		sleep(time.Duration(15000+g.r.intn(25000)) * time.Millisecond)
+		hb()
+		g.p.Faults = append(g.p.Faults, "input.transfer_restarted", "clock.cross_60s")
+	}
 	// final: long wait, heartbeat, resupply everything that is still missing (an expired transfer must not complete)
 	if g.r.chance(50) {
 		sleep(expireAfter + delta())
